@@ -195,6 +195,38 @@ def gen_switch_history(rng, n, ctx):
     return cmds
 
 
+def gen_isolation_history(rng, ctx):
+    """policy isolation (C09): sockets that share credentials - and therefore the cached SSL_CTX - but differ in policy.
+    A lenient connection (validity time / CRL / authentication switched off for that socket alone) is set up and kept alive,
+    then strict sockets on the same credentials must still refuse the same peer; both orders, accept side and connect side."""
+    cmds = ["D a1 rootA crlA-empty", "ENV default"]
+    proto = rng.choice(["btls", "tls"])
+    dims = [("time=0", "expired", ""), ("time=0", "future", ""), ("crlchk=0", "revoked", "crlchk=1,crl=crlA,"), ("auth=0", "b1", "")]
+    pid = 0
+    for lenient, peer, strict in dims:
+        order = rng.below(2)
+        # the accepting side verifies: server socket strict, one accept lenient
+        cmds.append("SRV 0 %s %scert=a1,tc=rootA" % (proto, strict))
+        seq = [(lenient, True), ("-", False)] if order else [("-", False), (lenient, True), ("-", False)]
+        for aa, keep in seq + [("-", False)]:
+            cmds.append("CON %d 0 127.0.0.1 %s cert=%s,tc=rootA" % (pid % 16, aa, peer))
+            pid += 1
+        cmds.append("CLOSE %d" % ((pid - 2) % 16))
+        cmds.append("CON %d 0 127.0.0.1 - cert=%s,tc=rootA" % (pid % 16, peer))
+        pid += 1
+        # the connecting side verifies: two clients on the same credentials, one lenient
+        if lenient != "auth=0":
+            cmds.append("SRV 1 %s cert=%s,tc=rootA" % (proto, peer))
+            cl = "%scert=a1,tc=rootA" % strict
+            for ca in ([cl + "," + lenient, cl] if order else [cl, cl + "," + lenient, cl]):
+                cmds.append("CON %d 1 127.0.0.1 - %s" % (pid % 16, ca))
+                pid += 1
+        ctx.count("tls.isolation." + lenient)
+    for p in range(min(pid, 16)):
+        cmds.append("CLOSE %d" % p)
+    return cmds
+
+
 def check_switch(ctx, cmds, model, out):
     """CON lines: verdict + which certificate each side sees; PING lines: established connections keep working and keep
     seeing the certificate they were established with"""
@@ -219,7 +251,8 @@ def check_switch(ctx, cmds, model, out):
             m, f = fields(ml), fields(il)
             if m.get("client") == "accepts" and m.get("accepted") == "accepts" and f.get("client") == "ok" and f.get("accepted") == "ok":
                 cs, as_ = f["cli_sees"].split(":")[0], f["acc_sees"].split(":")[0]
-                if cs != m["cli_sees"] or as_ != m["acc_sees"]:
+                want_acc = "-" if "auth=0" in w[4].split(",") else m["acc_sees"]      # without tls.auth no client certificate is requested
+                if cs != m["cli_sees"] or as_ != want_acc:
                     ctx.violation("sys_tls:switch:wrong-credentials", "a new connection does not use the credentials designated at that moment: %s | expected server cert %s / client cert %s, "
                                   "observed %s / %s" % (cmd, m["cli_sees"], m["acc_sees"], cs, as_), rep)
                 seen[int(w[1])] = (f["cli_sees"], f["acc_sees"])
